@@ -36,6 +36,7 @@ import (
 	"github.com/nuts-foundation/nuts-node/network/dag"
 	"github.com/nuts-foundation/nuts-node/vcr/credential"
 	"github.com/nuts-foundation/nuts-node/vcr/pe"
+	"github.com/nuts-foundation/nuts-node/vcr/signature/proof"
 	"github.com/nuts-foundation/nuts-node/vdr/didjwk"
 	"github.com/nuts-foundation/nuts-node/vdr/didkey"
 	"github.com/nuts-foundation/nuts-node/vdr/didweb"
@@ -456,10 +457,110 @@ func TestVerifC19(t *testing.T) {
 		env.MarshalJSON()
 		return "ok"
 	}
+	// vcr/credential helpers, modelled part (NutsModel/C19/Cred.lean): ResolveSubjectDID, PresentationSigner (+ ParseLDProof),
+	// PresenterIsCredentialSubject on every presentation go-did parses; library results are observed independently as data
+	credOp := func(in string) {
+		vp, err := vc.ParseVerifiablePresentation(in)
+		if err != nil {
+			return
+		}
+		op := map[string]any{"op": "cred.presenter", "input": in, "format": "other", "kid": nil, "proofsOk": false, "nProofs": 0, "parsedDID": nil}
+		didOf := func(s string) any {
+			var out any
+			c19Guard(func() string {
+				if u, err := did.ParseDIDURL(s); err == nil {
+					out = ""
+					if !u.DID.Empty() {
+						out = u.DID.String()
+					}
+				}
+				return ""
+			})
+			return out
+		}
+		switch vp.Format() {
+		case vc.JWTPresentationProofFormat:
+			op["format"] = "jwt"
+			if kid, _, err := nutsCrypto.JWTKidAlg(vp.Raw()); err == nil {
+				op["kid"] = kid
+				op["parsedDID"] = didOf(kid)
+			}
+		case vc.JSONLDPresentationProofFormat:
+			op["format"] = "ldp"
+		}
+		var proofs []proof.LDProof
+		if vp.UnmarshalProofValue(&proofs) == nil {
+			op["proofsOk"], op["nProofs"] = true, len(proofs)
+			if len(proofs) > 0 && op["format"] == "ldp" {
+				op["parsedDID"] = didOf(proofs[0].VerificationMethod.String())
+			}
+		}
+		subjects := []any{}
+		for _, c := range vp.VerifiableCredential {
+			if sid, err := c.SubjectDID(); err == nil {
+				subjects = append(subjects, sid.String())
+			} else {
+				subjects = append(subjects, nil)
+			}
+		}
+		op["subjects"] = subjects
+		cls := func(err error) string {
+			m := err.Error()
+			for _, p := range [][2]string{{"not all VCs have the same credentialSubject.id", "not-same-subject"}, {"unable to get subject DID from VC", "subject"}, {"no kid header in JWT", "no-kid"},
+				{"cannot parse kid as did", "kid-not-did"}, {"invalid LD-proof for presentation", "proof-unmarshal"}, {"presentation should have exactly 1 proof", "proof-count"},
+				{"invalid verification method for JSON-LD presentation", "verification-method"}, {"unsupported presentation format", "format"}} {
+				if strings.Contains(m, p[0]) {
+					return "err:" + p[1]
+				}
+			}
+			return "err:jws"
+		}
+		c19Mark(op)
+		part := func(fn func() string) string { return c19Class(c19Guard(fn)) }
+		line := "subj=" + part(func() string {
+			d, err := credential.ResolveSubjectDID(vp.VerifiableCredential...)
+			if err != nil {
+				return cls(err)
+			}
+			if d.Empty() {
+				return "ok()"
+			}
+			return "ok(" + c19Show(d.String()) + ")"
+		}) + " signer=" + part(func() string {
+			d, err := credential.PresentationSigner(*vp)
+			if err != nil {
+				return cls(err)
+			}
+			if d.Empty() {
+				return "ok()"
+			}
+			return "ok(" + c19Show(d.String()) + ")"
+		}) + " presenter=" + part(func() string {
+			d, err := credential.PresenterIsCredentialSubject(*vp)
+			if err != nil {
+				return cls(err)
+			}
+			if d == nil {
+				return "ok:nil"
+			}
+			if d.Empty() {
+				return "ok()"
+			}
+			return "ok(" + c19Show(d.String()) + ")"
+		})
+		if len(in) > 6000 {
+			op["input"] = c19Short(in, 6000)
+		}
+		o.emit(op, line)
+	}
 	eps := map[string]func(string) string{"pe.ParseEnvelope": envelopePath, "pe.match+validate": pePath, "dag.ParseTransaction": parseTx, "didweb.Resolve": web, "didkey.Resolve": key, "didjwk.Resolve": jwkR, "crypto.ParseJWT": parseJWT, "credential.vp": vpPath, "credential.vc": vcPath}
 
 	replay, isReplay := c19ReadOps()
 	for _, op := range replay {
+		if op["op"] == "cred.presenter" {
+			in, _ := op["input"].(string)
+			credOp(in)
+		}
 		if op["op"] == "didkey" {
 			m, _ := op["method"].(string)
 			i, _ := op["id"].(string)
@@ -480,6 +581,9 @@ func TestVerifC19(t *testing.T) {
 		o.explore(ep, in, func() string { return fn(in) })
 		if ep == "didkey.Resolve" {
 			didKeyOp(in)
+		}
+		if ep == "credential.vp" {
+			credOp(in)
 		}
 	}
 
@@ -791,6 +895,55 @@ func TestVerifC19(t *testing.T) {
 	// ---- credentials and presentations (JSON-LD and JWT forms)
 	if vpPath(validVP()) != "ok" || vcPath(validVC) != "ok" {
 		t.Fatal("valid VC/VP not accepted")
+	}
+	{
+		// presentations with 0..3 credentials whose subjects agree / differ / are missing / are arrays, 0..2 proofs, verification methods and kids of every shape
+		vcWith := func(subject string) string {
+			return strings.Replace(validVC, `"credentialSubject":{"id":"did:web:holder.example.com",`, `"credentialSubject":`+subject+`,"x":{`, 1)
+		}
+		subjectVals := []string{`{"id":"did:web:holder.example.com"}`, `{"id":"did:web:other.example.com"}`, `{}`, `{"id":""}`, `{"id":5}`, `[{"id":"did:web:holder.example.com"},{"id":"did:web:holder.example.com"}]`,
+			`[{"id":"did:web:holder.example.com"},{"id":"did:web:other.example.com"}]`, `[]`, `null`, `"did:web:holder.example.com"`, `{"id":"DID:web:holder.example.com"}`, `{"id":"did:web:holder.example.com#frag"}`}
+		var credSets []string
+		credSets = append(credSets, ``, `null`)
+		for _, a := range subjectVals {
+			credSets = append(credSets, vcWith(a))
+			for _, b := range subjectVals[:4] {
+				credSets = append(credSets, vcWith(a)+`,`+vcWith(b), vcWith(b)+`,`+vcWith(a)+`,`+vcWith(b))
+			}
+		}
+		prf := func(vm string) string {
+			return `{"type":"JsonWebSignature2020","created":"2024-01-01T00:00:00Z","verificationMethod":` + vm + `,"proofPurpose":"authentication","challenge":"n1","jws":"eyJhbGciOiJFUzI1NiJ9..AAAA"}`
+		}
+		vms := []string{`"did:web:holder.example.com#key-1"`, `"did:web:other.example.com#key-1"`, `"#key-1"`, `""`, `"not a did"`, `"did:web:holder.example.com"`, `5`, `null`}
+		var proofSets []string
+		proofSets = append(proofSets, `[]`, `null`, `5`, `"x"`, `{}`)
+		for _, vm := range vms {
+			proofSets = append(proofSets, prf(vm), `[`+prf(vm)+`]`, `[`+prf(vm)+`,`+prf(vm)+`]`)
+		}
+		for ci, cs := range credSets {
+			for pi, ps := range proofSets {
+				if ci > 6 && pi > 8 && (ci+pi)%5 != 0 {
+					continue
+				}
+				in := `{"@context":["https://www.w3.org/2018/credentials/v1"],"type":"VerifiablePresentation","verifiableCredential":[` + cs + `],"proof":` + ps + `}`
+				o.dist["cred.presenter:table"]++
+				credOp(in)
+			}
+		}
+		for _, kid := range []string{`"did:web:holder.example.com#key-1"`, `"did:web:other.example.com#key-1"`, `"#key-1"`, `""`, `"not a did"`, `"did:web:holder.example.com"`, `5`, `null`, `-`} {
+			h := `{"alg":"ES256","typ":"JWT","kid":` + kid + `}`
+			if kid == "-" {
+				h = `{"alg":"ES256","typ":"JWT"}`
+			}
+			for ci, cs := range credSets {
+				if ci > 12 && ci%4 != 0 {
+					continue
+				}
+				claims := `{"iss":"did:web:holder.example.com","nonce":"n1","exp":4102444800,"nbf":1,"vp":{"@context":["https://www.w3.org/2018/credentials/v1"],"type":"VerifiablePresentation","verifiableCredential":[` + cs + `]}}`
+				o.dist["cred.presenter:jwt-table"]++
+				credOp(sg.compact([]byte(h), []byte(claims), true))
+			}
+		}
 	}
 	jsystematic([]byte(validVC), func(b []byte, kind string) { run("credential.vc", string(b), kind) })
 	jsystematic([]byte(validVP()), func(b []byte, kind string) { run("credential.vp", string(b), kind) })
